@@ -155,6 +155,20 @@ func genBody(r *Rng, depth int, consts []string) lbody {
 	return b
 }
 
+// an Iterator written in Go over a fixed list of elements
+type c08it struct {
+	els []interface{}
+	pos int
+}
+
+func (x *c08it) Next() interface{} {
+	if x.pos >= len(x.els) {
+		return nil
+	}
+	x.pos++
+	return x.els[x.pos-1]
+}
+
 func init() {
 	register("C08", func(e *Env) {
 		renderPrelude()
@@ -388,6 +402,33 @@ func init() {
 				if o.Class != "OK" || o.Out != t[1] {
 					e.Violate("c08-unroll", fmt.Sprintf("%s: rendered %q (%s %s), once-per-entry reference %q", t[0], o.Out, o.Class, o.Msg, t[1]), map[string]interface{}{"tmpl": t[0], "observed": o})
 					break
+				}
+			}
+		}
+		// an Iterator written in Go: walked until Next returns nil, and only then - elements that are
+		// falsy or typed nils (a nil pointer, a nil map, a nil slice held in the interface) are elements;
+		// a nil pointer that is an Iterator is a nil iterable and renders nothing
+		{
+			var np *T0
+			var nm map[string]int
+			var ns []int
+			for _, t := range []struct {
+				els  []interface{}
+				want string
+			}{{[]interface{}{1, 2, 3}, "[0:1][1:2][2:3]"}, {[]interface{}{1, np, 3}, "[0:1][1:][2:3]"}, {[]interface{}{np}, "[0:]"}, {[]interface{}{"a", nm, "b"}, "[0:a][1:][2:b]"},
+				{[]interface{}{ns, ns}, "[0:][1:]"}, {[]interface{}{0, "", false}, "[0:0][1:][2:false]"}, {[]interface{}{}, ""}, {[]interface{}{&T0{"p"}, &T0{"q"}}, "[0:p][1:q]"}} {
+				for _, body := range []string{"[<%= i %>:<%= v %>]", "[<%= i %>:<%= v.Name %>]"} {
+					if strings.Contains(body, ".Name") != strings.Contains(t.want, "p]") {
+						continue
+					}
+					tm := "<%= for (i, v) in it { %>" + body + "<% } %>|<%= for (v) in nilit { %>x<% } %>|"
+					var nilit *c08it
+					o := runRenderExtra(RCase{Tmpl: tm}, map[string]interface{}{"it": &c08it{els: t.els}, "nilit": nilit})
+					e.rep.Evaluations++
+					e.Count("go-iterator")
+					if o.Class != "OK" || o.Out != t.want+"||" {
+						e.Violate("c08-unroll", fmt.Sprintf("%s over an iterator handing out %#v: rendered %q (%s %s), want %q", tm, t.els, o.Out, o.Class, firstLine(o.Msg), t.want+"||"), map[string]interface{}{"tmpl": tm, "observed": o})
+					}
 				}
 			}
 		}
